@@ -65,14 +65,14 @@ CONSTANTS NT,       \* tasks 1..NT
           Peek,     \* peek() allowed
           Sym       \* symmetry reduction: tasks are first polled in the order of their numbers
 
-VARIABLES occ, open, now, disp, blk, pnd, cgt, base,      \* the world
+VARIABLES occ, open, nb0, now, disp, blk, pnd, cgt, base, \* the world
           rkeys, wkeys, smset, sm, tch,                   \* the wrapper
           ts, pc, opr, stg, reg, wleft, got,              \* the tasks
           cur, sel, sp, sr, saved, idl, oc,               \* the loop and the select call in progress
           xn, sn, spn,                                    \* budgets
           ev, h
 
-wv == <<occ, open, now, disp, blk, pnd, cgt, base>>
+wv == <<occ, open, nb0, now, disp, blk, pnd, cgt, base>>
 kv == <<rkeys, wkeys, smset, sm, tch>>
 tv == <<ts, pc, opr, stg, reg, wleft, got>>
 lv == <<cur, sel, sp, sr, saved, idl, oc>>
@@ -124,9 +124,10 @@ E(e, t, a, b, r, x, y, z) == <<e, t, a, b, r, x, y, z, <<>> >>
 
 \* "temporarily set the file descriptor to non-blocking mode while performing
 \* the operation": a descriptor is non-blocking exactly while an operation of
-\* some task on it is in flight (descriptors are created blocking here)
+\* some task on it is in flight, or if it is non-blocking by itself (nb0), and
+\* its own mode is what remains afterwards ("preserves the blocking mode")
 InFlight(t, fd) == opr[t].k \in {"R", "W", "WA"} /\ opr[t].a = fd /\ ts[t] # "dead"
-NbFlag(fd) == open[fd] /\ \E t \in Tasks : InFlight(t, fd)
+NbFlag(fd) == open[fd] /\ (nb0[fd] \/ \E t \in Tasks : InFlight(t, fd))
 
 \* what the harness can see of the world after every event
 Proj == <<now>> \o [p \in Pipes |-> occ[p]]
@@ -181,6 +182,7 @@ SelCond(intr, deadline) ==
 Init ==
   /\ occ = [p \in Pipes |-> 0]
   /\ open = [fd \in Fds |-> TRUE]
+  /\ nb0 = [fd \in Fds |-> FALSE]
   /\ now = 0
   /\ disp = [s \in Sigs |-> "Default"]
   /\ blk = Base0 /\ base = Base0
@@ -247,10 +249,10 @@ IO(t, op, first) ==
              THEN /\ opr' = [opr EXCEPT ![t] = op]
                   /\ stg' = [stg EXCEPT ![t] = IF first THEN "park" ELSE "park2"]
                   /\ UNCHANGED <<pc, reg, wleft>>
-                  /\ UNCHANGED <<open, now, disp, blk, pnd, cgt, base>>
+                  /\ UNCHANGED <<open, now, disp, blk, pnd, cgt, base, nb0>>
                   /\ Emit(pre \o <<E("rd", t, fd, op.b, "EAGAIN", <<0>>, <<>>, <<>>)>>)
              ELSE /\ Done(t)
-                  /\ UNCHANGED <<open, now, disp, blk, pnd, cgt, base>>
+                  /\ UNCHANGED <<open, now, disp, blk, pnd, cgt, base, nb0>>
                   /\ Emit(pre \o <<E("rd", t, fd, op.b, r.r, <<r.n>>, <<>>, <<>>),
                                    E("res", t, r.n, 0, r.r, <<>>, <<>>, <<>>)>>)
      ELSE LET k == IF first THEN op.b ELSE wleft[t]
@@ -258,7 +260,7 @@ IO(t, op, first) ==
               fin == g.st # "EAGAIN" /\ (g.st # "ok" \/ op.k = "W" \/ g.left = 0)
           IN
           /\ occ' = IF open[fd] THEN [occ EXCEPT ![p] = g.o] ELSE occ
-          /\ UNCHANGED <<open, now, disp, blk, pnd, cgt, base>>
+          /\ UNCHANGED <<open, now, disp, blk, pnd, cgt, base, nb0>>
           /\ IF fin
              THEN /\ Done(t)
                   /\ Emit(pre \o g.evs \o <<E("res", t, IF op.k = "W" THEN k - g.left ELSE 0, 0, g.st, <<>>, <<>>, <<>>)>>)
@@ -346,15 +348,15 @@ Begin(t, op) ==
                             /\ cgt' = cgt \o CaughtOf(pnd, blk', disp)
                     /\ SmUpd(s, blk)
                     /\ UNCHANGED <<disp, rkeys, wkeys>>
-                    /\ UNCHANGED <<occ, open, now, base, ts, pc, reg, wleft, got, lv, bv>>
+                    /\ UNCHANGED <<occ, open, now, base, nb0, ts, pc, reg, wleft, got, lv, bv>>
                     /\ Emit(<<o, E("sm", t, op.b, 0, "ok", <<s>>, <<>>, <<>>)>>)
                ELSE /\ disp' = [disp EXCEPT ![s] = IF op.b = 1 THEN "Catch" ELSE "Ignore"]
-                    /\ UNCHANGED <<occ, open, now, blk, pnd, cgt, base, kv, ts, pc, reg, wleft, got, lv, bv>>
+                    /\ UNCHANGED <<occ, open, now, blk, pnd, cgt, base, nb0, kv, ts, pc, reg, wleft, got, lv, bv>>
                     /\ Emit(<<o, E("sa", t, s, op.b, disp[s], <<>>, <<>>, <<>>)>>)
        [] op.k = "C" ->
             /\ open' = [open EXCEPT ![op.a] = FALSE]
             /\ Done(t)
-            /\ UNCHANGED <<occ, now, disp, blk, pnd, cgt, base, kv, ts, got, lv, bv>>
+            /\ UNCHANGED <<occ, now, disp, blk, pnd, cgt, base, nb0, kv, ts, got, lv, bv>>
             \* Close::close: "returns Ok(()) when the FD is already closed"
             /\ Emit(<<o, E("res", t, 0, 0, "ok", <<>>, <<>>, <<>>)>>)
 
@@ -368,7 +370,7 @@ D2(t) ==
      IF first_mask
      THEN /\ disp' = [disp EXCEPT ![s] = IF op.b = 1 THEN "Catch" ELSE "Ignore"]
           /\ Done(t)
-          /\ UNCHANGED <<occ, open, now, blk, pnd, cgt, base, kv, ts, got, lv, bv>>
+          /\ UNCHANGED <<occ, open, now, blk, pnd, cgt, base, nb0, kv, ts, got, lv, bv>>
           /\ Emit(<<E("sa", t, s, op.b, disp[s], <<>>, <<>>, <<>>), E("res", t, 0, 0, "ok", <<>>, <<>>, <<>>)>>)
      ELSE /\ IF op.b = 1
              THEN /\ blk' = blk \cup {s} /\ UNCHANGED <<pnd, cgt>>
@@ -377,7 +379,7 @@ D2(t) ==
                   /\ cgt' = cgt \o CaughtOf(pnd, blk', disp)
           /\ SmUpd(s, blk)
           /\ Done(t)
-          /\ UNCHANGED <<occ, open, now, disp, base, rkeys, wkeys, ts, got, lv, bv>>
+          /\ UNCHANGED <<occ, open, now, disp, base, nb0, rkeys, wkeys, ts, got, lv, bv>>
           /\ Emit(<<E("sm", t, op.b, 0, "ok", <<s>>, <<>>, <<>>), E("res", t, 0, 0, "ok", <<>>, <<>>, <<>>)>>)
 
 \* a polled task continues a sleep, a signal wait or a yield
@@ -468,10 +470,10 @@ SelCall ==
         /\ idl' = dl
         /\ IF res.k = "wait"
            THEN /\ blk' = nb /\ sel' = "wait" /\ sr' = sr
-                /\ UNCHANGED <<occ, open, now, disp, base, kv, tv, cur, sp, bv>>
+                /\ UNCHANGED <<occ, open, now, disp, base, nb0, kv, tv, cur, sp, bv>>
                 /\ Emit(<<E("sw", 0, 0, 0, "", <<>>, <<>>, <<>>)>>)
            ELSE /\ blk' = blk /\ sel' = "ret" /\ sr' = res
-                /\ UNCHANGED <<occ, open, now, disp, base, kv, tv, cur, sp, bv>>
+                /\ UNCHANGED <<occ, open, now, disp, base, nb0, kv, tv, cur, sp, bv>>
                 /\ Emit(<<E("sr", 0, 0, 0, res.k, SSeq(res.rr), SSeq(res.ww), <<>>)>>)
 
 \* WRONG (negative configuration): unblock first, then wait for the NEXT event
@@ -484,7 +486,7 @@ SelCallNonAtomic ==
      /\ saved' = blk /\ blk' = nb
      /\ idl' = IF sp.to > 0 THEN now + sp.to ELSE -1
      /\ sel' = "wait"
-     /\ UNCHANGED <<occ, open, now, disp, base, kv, tv, cur, sp, sr, bv>>
+     /\ UNCHANGED <<occ, open, now, disp, base, nb0, kv, tv, cur, sp, sr, bv>>
      /\ Emit(<<E("sw", 0, 0, 0, "", <<>>, <<>>, <<>>)>>)
 
 \* a blocked select returns as soon as one of its conditions holds; the mask is restored
@@ -495,7 +497,7 @@ SelWake ==
      /\ sr' = res
      /\ blk' = saved
      /\ sel' = "ret"
-     /\ UNCHANGED <<occ, open, now, disp, pnd, cgt, base, kv, tv, cur, sp, saved, idl, oc, bv>>
+     /\ UNCHANGED <<occ, open, now, disp, pnd, cgt, base, nb0, kv, tv, cur, sp, saved, idl, oc, bv>>
      /\ Emit(<<E("sr", 0, 0, 0, res.k, SSeq(res.rr), SSeq(res.ww), <<>>)>>)
 
 \* "wakes the tasks whose events are ready": descriptors reported ready (all of
@@ -527,7 +529,7 @@ SelEnd ==
         /\ reg' = [t \in Tasks |-> IF t \in woken THEN NoReg ELSE reg[t]]
         /\ sel' = "no" /\ sp' = NoSp /\ sr' = NoSr /\ saved' = {} /\ idl' = -1 /\ oc' = 0
         /\ sn' = sn + 1
-        /\ UNCHANGED <<occ, open, now, disp, blk, pnd, base, smset, sm, tch, pc, opr, stg, wleft, cur, xn, spn>>
+        /\ UNCHANGED <<occ, open, now, disp, blk, pnd, base, nb0, smset, sm, tch, pc, opr, stg, wleft, cur, xn, spn>>
         /\ Emit(<<E("se", 0, 0, 0, sr.k, SSeq(woken), SortBy(tw, dls), MapSeq(SortBy(tw, dls), dls))>>)
 
 -----------------------------------------------------------------------------
@@ -542,25 +544,29 @@ Ext(x) ==
   /\ CASE x.k = "xw" ->   \* another process writes b units into pipe a
             /\ open[WFd(x.a)] /\ open[RFd(x.a)] /\ occ[x.a] + x.b <= Cap
             /\ occ' = [occ EXCEPT ![x.a] = @ + x.b]
-            /\ UNCHANGED <<open, now, disp, blk, pnd, cgt, base>>
+            /\ UNCHANGED <<open, now, disp, blk, pnd, cgt, base, nb0>>
        [] x.k = "xr" ->   \* another process drains b units
             /\ open[RFd(x.a)] /\ occ[x.a] >= x.b
             /\ occ' = [occ EXCEPT ![x.a] = @ - x.b]
-            /\ UNCHANGED <<open, now, disp, blk, pnd, cgt, base>>
+            /\ UNCHANGED <<open, now, disp, blk, pnd, cgt, base, nb0>>
        [] x.k = "xc" ->   \* descriptor a is closed
             /\ open[x.a]
             /\ open' = [open EXCEPT ![x.a] = FALSE]
-            /\ UNCHANGED <<occ, now, disp, blk, pnd, cgt, base>>
+            /\ UNCHANGED <<occ, now, disp, blk, pnd, cgt, base, nb0>>
+       [] x.k = "xn" ->   \* the mode of descriptor a is toggled (O_NONBLOCK), while no operation uses it
+            /\ open[x.a] /\ \A t \in Tasks : ~InFlight(t, x.a)
+            /\ nb0' = [nb0 EXCEPT ![x.a] = ~@]
+            /\ UNCHANGED <<occ, open, now, disp, blk, pnd, cgt, base>>
        [] x.k = "xs" ->   \* signal a is sent to the process
             /\ disp[x.a] # "Default" \/ x.a \in blk
             /\ IF x.a \in blk
                THEN pnd' = pnd \cup {x.a} /\ cgt' = cgt
                ELSE pnd' = pnd /\ cgt' = IF disp[x.a] = "Catch" THEN Append(cgt, x.a) ELSE cgt
-            /\ UNCHANGED <<occ, open, now, disp, blk, base>>
+            /\ UNCHANGED <<occ, open, now, disp, blk, base, nb0>>
        [] x.k = "xt" ->   \* time passes
             /\ now + x.a <= MaxNow
             /\ now' = now + x.a
-            /\ UNCHANGED <<occ, open, disp, blk, pnd, cgt, base>>
+            /\ UNCHANGED <<occ, open, disp, blk, pnd, cgt, base, nb0>>
   /\ UNCHANGED <<kv, tv, lv, sn, spn>>
   /\ Emit(<<E(x.k, 0, x.a, x.b, "", <<>>, <<>>, <<>>)>>)
 
@@ -709,6 +715,9 @@ L_Polled == \A t \in Tasks : (ts[t] = "ready") ~> (ts[t] # "ready")
 
 \* a timer whose deadline has passed fires
 L_TimerFires == \A t \in Tasks : (reg[t].k = "t" /\ reg[t].a <= now) ~> (reg[t].k # "t")
+
+\* a system whose tasks only sleep and yield terminates: the loop ends when every task has completed
+L_Terminates == <>[](\A t \in Tasks : ts[t] \in {"done", "dead"})
 
 \* a reader whose pipe holds data (or reached end of file) is woken, unless the data goes away
 RdyOf(t) == IF reg[t].k = "r" THEN open[reg[t].a] /\ RdReady(reg[t].a) ELSE FALSE
